@@ -60,6 +60,9 @@ def run(tier, replay=None):
         if x["kind"] in ("maparr", "mapmap"):
             src, bl, cl = wtcorpus.rev_program(x)
             cases.append({"Id": "v%d" % i, "Src": src, "exp": x["ok"], "lines": [bl, cl], "row": dict(x, kind=x["kind"] + "-reversed")})
+        if x["kind"] == "ref" and not x.get("path"):
+            src, ln = wtcorpus.wildself_program(x)
+            cases.append({"Id": "w%d" % i, "Src": src, "exp": x["ok"], "lines": ln, "row": dict(x, kind="wildcard-self")})
         if wtcorpus.shorthand_ok(x):
             src, bl, cl = wtcorpus.shorthand_program(x)
             cases.append({"Id": "s%d" % i, "Src": src, "exp": x["ok"], "lines": [bl, cl], "row": dict(x, kind="shorthand")})
